@@ -301,7 +301,7 @@ def apply_rewrite(text, frm, to):
 LOOP_KW = ("for", "while", "loop")
 
 
-def splice_fn(text, spec=None, ret=None, loops=None, before=None, after=None, rewrites=None, strip_pub=False, log=None, sel="", forloops=None, loopends=None, bodystart=None, bodyend=None):
+def splice_fn(text, spec=None, ret=None, loops=None, before=None, after=None, rewrites=None, strip_pub=False, log=None, sel="", forloops=None, loopends=None, bodystart=None, bodyend=None, optloops=None):
     """text = verbatim fn item. Returns (new_text, segments) where segments = list of (kind, label, line_lo, line_hi)
     relative to new_text, for mapping verifier diagnostics back to named clauses."""
     log = log if log is not None else []
@@ -455,6 +455,8 @@ def splice_fn(text, spec=None, ret=None, loops=None, before=None, after=None, re
         loopends = [(abs(kk), g) for kk, g in (loopends or [])]
         for k, ghost in (loopends or []):
             if k > len(loop_idx):
+                if k in (optloops or ()):
+                    log.append({"rule": "optional-loop-absent", "item": sel, "from": f"loop #{k}", "to": "(ghost text for it dropped)", "count": 1}); continue
                 raise Undecided(f"lost anchor: loop #{k} in {sel} (found {len(loop_idx)})")
             le0 = match_brace(ct, loop_idx[k - 1][1])
             if k_after.get(id(ghost)):
@@ -463,6 +465,8 @@ def splice_fn(text, spec=None, ret=None, loops=None, before=None, after=None, re
                 edits.append((ct[le0][2], "\n/*@GHOST-BEGIN loop-end %d*/\n" % k + "\n".join(ghost) + "\n/*@GHOST-END*/\n", 0))
         for k, inv in loops:
             if k > len(loop_idx):
+                if k in (optloops or ()):
+                    log.append({"rule": "optional-loop-absent", "item": sel, "from": f"loop #{k}", "to": "(invariant for it dropped)", "count": 1}); continue
                 raise Undecided(f"lost anchor: loop #{k} in {sel} (found {len(loop_idx)})")
             kwi, lbi = loop_idx[k - 1]
             invtxt = "\n/*@LOOP-BEGIN %d*/\n" % k + "\n".join(inv) + "\n/*@LOOP-END*/\n"
@@ -488,6 +492,20 @@ def splice_fn(text, spec=None, ret=None, loops=None, before=None, after=None, re
                 pat = text[ct[kwi + 1][2]:ct[kin - 1][3]]
                 expr = text[ct[kin + 1][2]:ct[lbi - 1][3]]
                 le = match_brace(ct, lbi)
+                if itname.startswith("idx:"):
+                    # R33: `for PAT in &mut EXPR { BODY }` over a Vec -> `let mut I: usize = 0; while I < EXPR.len() INV { let PAT = &mut EXPR[I]; BODY I += 1; }`
+                    # (same elements in the same order; `break`/`return` keep their meaning; a `continue` would skip the increment => undecided)
+                    iname = itname[4:]
+                    if not expr.strip().startswith("&mut "):
+                        raise Undecided(f"R33: loop #{k} in {sel} does not iterate over `&mut <vec>` any more")
+                    vexpr = expr.strip()[5:].strip()
+                    if any(t[0] == "ident" and t[1] == "continue" for t in ct[lbi:le]):
+                        raise Undecided(f"R33: loop #{k} in {sel} contains `continue`")
+                    head = "let mut %s: usize = 0; while %s < %s.len() %s { let %s = &mut %s[%s]; " % (iname, iname, vexpr, invtxt, pat, vexpr, iname)
+                    edits.append((ct[kwi][2], head, ct[lbi][3] - ct[kwi][2]))
+                    edits.append((ct[le][2], " %s += 1; " % iname, 0))
+                    log.append({"rule": "R33", "item": sel, "from": f"for {pat} in {expr} {{..}}", "to": f"let mut {iname} = 0; while {iname} < {vexpr}.len() {{ let {pat} = &mut {vexpr}[{iname}]; ..; {iname} += 1; }}", "count": 1})
+                    continue
                 head = "let mut %s = %s(%s); loop %s { match %s(&mut %s) { Some(%s) => " % (itname, shim_into, expr, invtxt, shim_nxt, itname, pat)
                 edits.append((ct[kwi][2], head, ct[lbi][2] - ct[kwi][2]))
                 edits.append((ct[le][3], " None => { break; } } }", 0))
@@ -556,6 +574,7 @@ def compose(template_text, repo_root, read_file):
             if "file" not in args or "sel" not in args:
                 raise Undecided(f"bad //@ITEM line: {l}")
             spec, loops, before, after, rew, forloops, loopends, bodystart, bodyend = [], [], [], [], [], [], [], [], []
+            optloops = set()
             cur = None
             i += 1
             while i < len(lines) and not lines[i].strip().startswith("//@END"):
@@ -566,17 +585,20 @@ def compose(template_text, repo_root, read_file):
                     cur = spec
                 elif s.split()[0] == "//@LOOP":
                     cur = []
-                    loops.append((int(s.split()[1]), cur))
+                    if s.split()[1].endswith("?"): optloops.add(int(s.split()[1].rstrip("?")))   # `//@LOOP k?`: skipped when the function has fewer loops
+                    loops.append((int(s.split()[1].rstrip("?")), cur))
                 elif s.startswith("//@BODYSTART"):     # lines inserted right after the function body's opening brace
                     cur = bodystart
                 elif s.startswith("//@BODYEND"):       # ghost lines right before the function body's closing brace
                     cur = bodyend
                 elif s.startswith("//@LOOPEND"):
                     cur = []
-                    loopends.append((int(s.split()[1]), cur))
+                    if s.split()[1].endswith("?"): optloops.add(int(s.split()[1].rstrip("?")))
+                    loopends.append((int(s.split()[1].rstrip("?")), cur))
                 elif s.startswith("//@AFTERLOOP"):     # ghost lines right after the closing brace of loop k
                     cur = []
-                    loopends.append((-int(s.split()[1]), cur))
+                    if s.split()[1].endswith("?"): optloops.add(int(s.split()[1].rstrip("?")))
+                    loopends.append((-int(s.split()[1].rstrip("?")), cur))
                 elif s.startswith("//@FORLOOP"):
                     parts = s.split()
                     # //@FORLOOP k itname [into_shim next_shim]
@@ -623,7 +645,7 @@ def compose(template_text, repo_root, read_file):
             is_fn = "fn " in args["sel"] and not args["sel"].startswith(("struct", "enum", "const", "static", "type"))
             if is_fn:
                 new_text = splice_fn(item_text, spec=spec, ret=args.get("ret"), loops=loops, before=before, after=after,
-                                     rewrites=rew, strip_pub=(args.get("strip", "pub") == "pub"), log=rewrites_log, sel=args["sel"], forloops=forloops, loopends=loopends, bodystart=bodystart, bodyend=bodyend)
+                                     rewrites=rew, strip_pub=(args.get("strip", "pub") == "pub"), log=rewrites_log, sel=args["sel"], forloops=forloops, loopends=loopends, bodystart=bodystart, bodyend=bodyend, optloops=optloops)
             else:
                 new_text = item_text
                 for rule, frm, to in rew:
